@@ -24,7 +24,7 @@ fn hub_sync(local: &Path, hub: &Path) -> (Option<i32>, String) {
         Ok(o) => (o.status.code(), format!("{}{}", String::from_utf8_lossy(&o.stdout), String::from_utf8_lossy(&o.stderr))), Err(e) => (Some(-1), e.to_string()) }
 }
 pub fn scenarios() -> Vec<(&'static str, fn() -> Option<String>)> {
-    vec![("lands-the-tree-and-skips-what-is-there (C13)", sc_lands_and_skips), ("exit-0-means-every-local-file-is-on-the-hub (C13)", sc_refused_files), ("stale-listing-never-overwrites (C13)", sc_stale_listing), ("host-root-targets (C13)", sc_remote_targets)]
+    vec![("lands-the-tree-and-skips-what-is-there (C13)", sc_lands_and_skips), ("exit-0-means-every-local-file-is-on-the-hub (C13)", sc_refused_files), ("stale-listing-with-256-contended-paths (C13)", sc_stale_256), ("stale-listing-never-overwrites (C13)", sc_stale_listing), ("host-root-targets (C13)", sc_remote_targets)]
 }
 /// inode of every hub file: a Put publishes by rename, so a re-sent file gets a new inode (independent of message wording)
 fn inodes(r: &Path) -> BTreeMap<String, u64> {
@@ -106,6 +106,29 @@ fn sc_remote_targets() -> Option<String> {
     }
     let _ = std::fs::remove_dir_all(&d);
     res
+}
+/// the stale-listing schedule with exactly 256 (and 257) contended paths: client A lists, client B then commits all of them, A pushes:
+/// every one of A's compare-and-swaps loses. Exit status 0 would promise that A's files are on the hub.
+fn sc_stale_256() -> Option<String> {
+    for n in [256usize, 257] {
+        let d = base("stale256"); let (la, lb, h) = (d.join("localA"), d.join("localB"), d.join("hub"));
+        for i in 0..n { let p = format!("shards/shard-{i:03}.dat"); put(&la, &p, format!("A{i}").as_bytes()); put(&lb, &p, format!("B{i}").as_bytes()); put(&h, &p, format!("listed{i}").as_bytes()); }
+        let b = std::env::var("COPIA_BIN").unwrap_or_default();
+        let a = Command::new("strace").args(["-f", "-qq", "-o", "/dev/null", "-P"]).arg(la.join("shards/shard-000.dat")).args(["-e", "trace=openat,open", "-e", "inject=openat,open:delay_enter=3000000:when=1"])
+            .arg(&b).arg("hub-sync").arg(&la).arg(&h).env("RUST_BACKTRACE", "0").stdin(Stdio::null()).stdout(Stdio::piped()).stderr(Stdio::piped()).spawn().ok()?;
+        std::thread::sleep(std::time::Duration::from_millis(700));
+        let (rcb, _) = hub_sync(&lb, &h);
+        let oa = a.wait_with_output().ok()?;
+        let th = tree(&h);
+        let mut res = None;
+        if rcb == Some(0) && oa.status.code() == Some(0) {
+            let lost = (0..n).filter(|i| th.get(&format!("shards/shard-{i:03}.dat")).map(|v| v.as_slice()) != Some(format!("A{i}").as_bytes())).count();
+            if lost > 0 { res = Some(format!("client A listed the hub, client B then committed all {n} paths, A then pushed: A's hub-sync exited 0 although {lost} of its {n} files are not at their paths on the hub (C13)")); }
+        }
+        let _ = std::fs::remove_dir_all(&d);
+        if res.is_some() { return res; }
+    }
+    None
 }
 fn sc_stale_listing() -> Option<String> {
     // client A is delayed (strace) right after its List, while it fingerprints its local tree; client B commits the same path
